@@ -126,11 +126,12 @@ static void caseC01(long long k, Rng& g)
    S.seen("nontrivial", I.M.signature() ^ fnv(cfg.key()));
    if(!tag.empty())
    {
-      ParamSet mc = minimiseConfig(cfg, [&](const ParamSet & p)
+      ParamSet mc;
+      std::string cell = cellKey(cfg, [&](const ParamSet & p)
       {
          return c01Once(I, p, loadMode, false, nullptr) == tag;
-      });
-      S.viol("C01:" + tag + ":" + mc.key(), detail + " | family " + fam + ", full config " + cfg.key(), replayJson(I.M, cfg, mc, loadMode));
+      }, &mc);
+      S.viol("C01:" + tag + ":" + cell, detail + " | family " + fam + ", full config " + cfg.key(), replayJson(I.M, cfg, mc, loadMode));
    }
    if(k < 4) S.sample(Json().str("family", fam).num("m", I.M.m).num("n", I.M.n).str("config", cfg.key()).str("truth",
                          I.T.known ? statusName(I.T.status == REF_OPTIMAL ? 1 : I.T.status == REF_UNBOUNDED ? 2 : 3) : "unknown").done());
@@ -276,11 +277,12 @@ static void caseC02(long long k, Rng& g)
    std::string tag = c02Once(I, cfg, loadMode, true, &detail);
    if(!tag.empty())
    {
-      ParamSet mc = minimiseConfig(cfg, [&](const ParamSet & p)
+      ParamSet mc;
+      std::string cell = cellKey(cfg, [&](const ParamSet & p)
       {
          return c02Once(I, p, loadMode, false, nullptr) == tag;
-      });
-      S.viol("C02:" + tag + ":" + mc.key(), detail + " | family " + fam + ", full config " + cfg.key(), replayJson(I.M, cfg, mc, loadMode));
+      }, &mc);
+      S.viol("C02:" + tag + ":" + cell, detail + " | family " + fam + ", full config " + cfg.key(), replayJson(I.M, cfg, mc, loadMode));
    }
    if(k < 4) S.sample(Json().str("family", fam).num("m", I.M.m).num("n", I.M.n).str("config", cfg.key()).done());
    S.end(k);
